@@ -3,6 +3,10 @@
 import json, subprocess, sys
 
 CHECKS = {
+ "C07": dict(cat="fault_enumeration", tech="chunking reader with byte accounting, requested-size and TotalAlloc monitors; truncation at every offset; real server and client connections fed byte-wise",
+   text="20k/800k message sequences (1-6 messages, sizes around the 512-byte initial buffer up to 1 MiB) under 1-byte, fixed 2..9, random, single-read and boundary-cut (exact / +-1) segmentations: the i-th Recv must return the i-th message and the transport must have handed out exactly the bytes of the messages returned so far; truncation at EVERY offset of messages <= 2 KB must yield an error; announced lengths around and far above the maximum must be rejected after <= 8 consumed bytes, <= 512 requested bytes and < 256 KiB allocated; final chunk delivered together with io.EOF; byte-wise delivery against a real kmipserver connection and a real kmipclient connection.",
+   note="Truncation offsets and the announced-length ladder are enumerated completely for the listed sizes; sequences and random segmentations are sampled.", ref="§2 C07"),
+
  "C09": dict(cat="exploration", tech="reference-model monitor over instrumented handlers: exhaustive small batches, random long ones, a sample over a real server connection",
    text="Every batch of length <=3 (quick) / <=4 (thorough) over 6 per-item outcomes x 4 continuation options x version ok/not x count ok/not x ids yes/no (8288 / 49760 cases) plus 3k/200k random batches up to 40 items run through BatchExecutor.HandleRequest with handlers that record their invocations; response shape (item count, order, echoed operation and id, batch count, version, success/failure) and the handler trace are compared with an executable reference model; ~1000 batches also cross a real kmipserver connection. Exhaustive inside the stated bounds.",
    note="Only what the property states is compared (not reason codes or messages).", ref="§2 C09"),
